@@ -1005,14 +1005,15 @@ def run_sim_case(case, ex, pool, pristine=None):
         # second run uses the new values - exactly what a new simulator returns for them after the same seed
         qc = build_circuit(case)
         r9a, _ = run(sim, case["seed"])
-        dev["T1"] = dev["T1"] * 0.37                      # rebinding an entry
+        dev["T1"] = dev["T1"] * 0.8                       # rebinding an entry (T2 <= 2 T1 stays true: T2 is reduced as well)
+        dev["T2"] = dev["T2"] * 0.4
         dev["p"][min(1, n - 1)] *= 3.0                    # writing into an array
         dev["p_int"] = dev["p_int"] * 2.0
         r9, st9 = run(sim, case["seed"])
         sim10 = MrAndersonSimulator(gates=fresh_gate_set(case["set"]), CircuitClass=getattr(cm, case["cls"]), parallel=False)
         r10, st10 = run(sim10, case["seed"])
         if r9 != r10 or not same_state(st9, st10):
-            out["fail"] = ("the device-parameter mapping was changed in place between two runs of one simulator (T1 rebound, p[k] and p_int "
+            out["fail"] = ("the device-parameter mapping was changed in place between two runs of one simulator (T1, T2 rebound, p[k] and p_int "
                            "rescaled): the second run differs from the run of a new simulator on the changed mapping after the same seed - "
                            "the simulator kept the earlier calibration")
     out.update(r1=r1, r2=r2, r3=r3, calls=calls, draws=draws, cache_growth=cache_after - cache_before)
